@@ -23,7 +23,7 @@ def run(ctx):
             "rejected: invalid local preference", "accepted_addr_kind_0", "accepted_addr_kind_1", "accepted_addr_kind_2",
             "bgp_adv_attached", "l2_adv_attached", "localpref_pairs", "aggregate_probes", "parse_multi_cidr_range",
             "parse_range_over_40_cidrs", "overlap_true", "membership_probes"]
-    if cases and not ctx.replay_in and any(st.get(k, 0) == 0 for k in need):
+    if cases and not ctx.replay_in and not ctx.violations and not ctx.corr_broken and any(st.get(k, 0) == 0 for k in need):
         raise Exception("generator degenerate: %r" % st)
 
     def search():
@@ -42,7 +42,7 @@ def run(ctx):
                                  "oracle_evaluations": sum(st.get(k, 0) for k in ("membership_probes", "disjointness_pairs", "attach_checks", "aggregate_probes", "localpref_pairs", "tiling_checks", "overlap_checks"))}
     ctx.trusted += [
         "net.ParseIP / the address and length read by net.ParseCIDR, strings.SplitN/TrimSpace, k8s label selectors (matchLabels only; matchExpressions outside the model) are modelled by their documented behaviour",
-        "ipaddr.Summarize is modelled from its source (Model/Cfg.v grow/summ) with fuel 2*width+2; C08_summarize_exact is conditional on the fuel sufficing, the correspondence compares every generated range with the real Summarize (a None of the model would be a mismatch)",
+        "ipaddr.Summarize is modelled from its source (Model/Cfg.v grow/summ) with fuel 2*width+2, proved sufficient (C08_summarize_fuel_ok); uint32/uint64-pair arithmetic of the Go code is modelled in N (the EOR test that prevents the wrap-around is mirrored)",
         "model covers config.go ParseCIDR, addressPoolFromCR, addressPoolServiceAllocationsFromCR, poolsFor, cidrsOverlap, cidrContainsCIDR, lowestMask, set{L2,BGP}AdvertisementsToPools, {l2,bgp}AdvertisementFromCR, containsAdvertisement, selectedNodes, selectedPools, validateBGPAdvPerPool, advertisementsAreCompatible, isAggrLengthDifferent, validateDuplicate, nodes.go NodeIPsForFamily; community strings arrive resolved; validateDuplicateBGPAdvertisements cannot fire for distinct names",
         "an IPv6 number inside ::ffff:0:0/96 is an IPv4 address for Go; the generator never uses such IPv6 addresses",
     ]
